@@ -20,29 +20,38 @@ Section FLd.
   Hypothesis Hcod : cpcodata cp = codata_of p.
   Hypothesis Hdefs : forall f d, ffind_def p f = Some d -> f <> "main" -> callee_ok p cp d.
 
+  Lemma chi_kind_list : forall (l1 l2 : list (fchi * bool)), list_eqb (chi_kind_eqb) l1 l2 = true -> l1 = l2.
+  Proof.
+    induction l1 as [|[c1 k1] r IH]; intros [|[c2 k2] r2]; simpl; intros H; try discriminate; [reflexivity|].
+    apply andb_prop in H. destruct H as [H1 H2]. apply IH in H2. subst. unfold chi_kind_eqb in H1. simpl in H1.
+    apply andb_prop in H1. destruct H1 as [Hc Hk]. apply Bool.eqb_prop in Hk. subst.
+    destruct c1, c2; simpl in Hc; try discriminate; reflexivity.
+  Qed.
+
   Lemma kinds_of_call : forall new args ctx,
-    Forall2 (fun b y => okb false b /\ fkind b = compile_chi (arg_chi y)) new args ->
-    map arg_chi args = map fbchi ctx ->
-    map fkind new = map (fun b => compile_chi (fbchi b)) ctx /\ Forall dbv new.
+    Forall2 (fun b y => okb p false y b /\ fkind b = compile_chi (arg_chi y)) new args ->
+    map (fun y => (arg_chi y, tkind p y)) args = map (fun b => (fbchi b, f_is_codata p (fbty b))) ctx ->
+    map fkind new = map (fun b => compile_chi (fbchi b)) ctx /\
+    Forall2 (fun v b => vok (is_codata cp (compile_ty (fbty b))) v) new ctx.
   Proof.
     intros new args ctx H. revert ctx. induction H as [|b y r r' [Hb1 Hb2] Hr IH]; intros ctx E.
     - destruct ctx; [|discriminate]. split; constructor.
-    - destruct ctx as [|c0 cr]; [discriminate|]. simpl in E. injection E as E1 E2.
-      destruct (IH cr E2) as [IH1 IH2]. split.
+    - destruct ctx as [|c0 cr]; [discriminate|]. simpl in E. injection E as E1 E2 E3.
+      destruct (IH cr E3) as [IH1 IH2]. split.
       + simpl. rewrite Hb2, E1, IH1. reflexivity.
-      + constructor; assumption.
+      + constructor; [|exact IH2]. rewrite (is_codata_compile p cp Hcod), <- E2. exact Hb1.
   Qed.
 
   Lemma call_finish : forall N, (forall N', (N' < N)%nat -> forall t, flw p cp N' t) ->
-    forall j, (j <= N)%nat -> forall f args e ce k cont new new',
-    f <> "main" -> call_kinds p f args = true ->
+    forall j, (j <= N)%nat -> forall f args ret e ce k cont new new',
+    f <> "main" -> call_kinds p f args ret = true ->
     Forall2 (brel p cp j) new new' ->
-    Forall2 (fun b y => okb false b /\ fkind b = compile_chi (arg_chi y)) new args ->
-    cont_shape cp cont -> KS p cp j k cont ce ->
+    Forall2 (fun b y => okb p false y b /\ fkind b = compile_chi (arg_chi y)) new args ->
+    cont_shape cp (f_is_codata_o p ret) cont -> KS p cp j (f_is_codata_o p ret) k cont ce ->
     sim p cp j (FArgs (rev_append new []) [] e (AfCall f) k)
                (cargs_res cp (rev_append new' []) [CConsumer cont] ce (FinCall (new_id f))).
   Proof.
-    intros N IHN j Hj f args e ce k cont new new' Hnm Hck Hnew Hkinds Hsh HKS.
+    intros N IHN j Hj f args ret e ce k cont new new' Hnm Hck Hnew Hkinds Hsh HKS.
     destruct j as [|j1]; [apply sim_zero|].
     destruct (ffind_def p f) as [d|] eqn:Ed;
       [|eapply sim_stuck; simpl; rewrite Ed; reflexivity].
@@ -51,13 +60,15 @@ Section FLd.
     eapply sim_fstep; [simpl; rewrite rev_append_nil_twice, Ed, Eb; reflexivity|].
     assert (Hname : fdname d = f).
     { unfold ffind_def in Ed. apply find_some in Ed. destruct Ed as [_ Ed]. apply String.eqb_eq in Ed. exact Ed. }
-    destruct (Hdefs f d Ed Hnm) as [a [body [st [st' [ty [Hwc [Ha [Hab [Hac [Hctx [Hbnd [Hl [Hfind [Hf [Hws Hnc]]]]]]]]]]]]]]].
-    destruct (KS_head p cp _ _ _ _ Hsh HKS) as [kv [Hh Hkb]].
-    unfold cargs_res. apply sim_cstep. rewrite (cstep_arg_consumer cp cont ce _ kv Hsh Hh).
+    destruct (Hdefs f d Ed Hnm) as [a [body [st [st' [ty [Hwc [Ha [Hab [Hac [Hctx [Hbnd [Hl [Hfind [Hf [Hws [Hnc [Hkd Hkb]]]]]]]]]]]]]]]]].
+    unfold cargs_res. apply sim_cstep.
+    destruct (KS_arg p cp _ _ _ _ ce (MArgs (rev_append new' []) [] ce (FinCall (new_id f))) Hsh HKS) as [kv [Hreach Hkk]].
+    eapply sim_rreach; [|exact Hreach].
     apply sim_cstep. rewrite cstep_app_margs. unfold cargs_res.
     change (rev_append (BK kv :: rev_append new' []) []) with (rev_append (rev_append new' []) [BK kv]).
     rewrite rev_append_twice_app.
-    unfold call_kinds in Hck. rewrite Ed in Hck. apply fchi_list_eqb_eq in Hck.
+    unfold call_kinds in Hck. rewrite Ed in Hck. apply andb_prop in Hck. destruct Hck as [Hck Hret].
+    apply chi_kind_list in Hck. apply Bool.eqb_prop in Hret.
     destruct (kinds_of_call _ _ _ Hkinds Hck) as [Hk1 Hk2].
     destruct (erel_binds p cp j1 [] (fdctx d) (Sof (fvs body)) (fun _ => True) new new' [] [(new_id a, BK kv)] e')
       as [ce1 [Hc [Hr Hlk]]].
@@ -73,7 +84,7 @@ Section FLd.
       rewrite app_nil_r in Hr.
       assert (Hj1 : (j1 < N)%nat) by lia.
       apply (IHN j1 Hj1 (fdbody d) j1 (Nat.le_refl j1) (compile_ctx (fdctx d)) (fdname d)
-                 (CXVar CCns (new_id a) ty) st body st' e' ce1 k Hwc Hf Hws Hnc Hl).
+                 (CXVar CCns (new_id a) ty) st body st' e' ce1 k Hwc Hf Hkd Hws Hnc Hl).
       + intros bb Hb. unfold compile_ctx in Hb. apply in_map_iff in Hb. destruct Hb as [b0 [E Hb0]]. subst bb.
         exists (fbvar b0). split; [reflexivity|]. apply Hctx. unfold fvars. apply in_map. exact Hb0.
       + exact Hbnd.
@@ -87,7 +98,7 @@ Section FLd.
           -- intros Hin. unfold cvars, compile_ctx in Hin. rewrite map_map in Hin. apply in_map_iff in Hin.
              destruct Hin as [b0 [E Hb0]]. simpl in E. apply new_id_inj in E. apply Hac. rewrite <- E.
              unfold fvars. apply in_map. exact Hb0.
-        * eapply Kb_mono; [exact Hkb | lia].
+        * rewrite Hkb, <- Hret. eapply Kk_mono; [exact Hkk | lia].
   Qed.
 
   (* clause selection on both sides *)
@@ -129,16 +140,19 @@ Section FLd.
   Qed.
 
   Lemma kinds_of_fields : forall ctx fields e e1,
-    Forall dfield fields -> forallb (fun b => fchi_eqb (fbchi b) FPrd) ctx = true ->
+    Forall dfield fields -> ctx_data p ctx = true ->
     fbind (fvars ctx) fields e = Some e1 ->
-    map fkind fields = map (fun b => compile_chi (fbchi b)) ctx /\ Forall dbv fields.
+    map fkind fields = map (fun b => compile_chi (fbchi b)) ctx /\
+    Forall2 (fun v b => vok (is_codata cp (compile_ty (fbty b))) v) fields ctx.
   Proof.
     induction ctx as [|c0 cr IH]; intros fields e e1 Hd Hp Hb; destruct fields as [|b fr]; simpl in Hb; try discriminate.
     - split; constructor.
     - destruct (fbind (fvars cr) fr e) as [er|] eqn:Er; [|discriminate].
-      inversion Hd as [|? ? Hd1 Hd2]; subst. simpl in Hp. apply andb_prop in Hp. destruct Hp as [Hp1 Hp2].
+      inversion Hd as [|? ? Hd1 Hd2]; subst. unfold ctx_data in Hp. simpl in Hp. apply andb_prop in Hp. destruct Hp as [Hp1 Hp2].
+      apply andb_prop in Hp1. destruct Hp1 as [Hprd Hdata]. apply negb_true_iff in Hdata.
       destruct (IH fr e er Hd2 Hp2 Er) as [IH1 IH2]. split.
       + simpl. rewrite IH1. f_equal. destruct b as [v|k0]; [|contradiction]. destruct (fbchi c0); [reflexivity | discriminate].
-      + constructor; [apply dfield_dbv; exact Hd1 | exact IH2].
+      + constructor; [|exact IH2]. rewrite (is_codata_compile p cp Hcod), Hdata.
+        destruct b as [v|k0]; [exact Hd1 | contradiction].
   Qed.
 End FLd.
